@@ -3,6 +3,7 @@
   locations), `sort.Search`, and the sorted insertion `Table.insert`.  Core Lean only.
 -/
 import Gts.Model.Feature
+import Gts.Lemmas.Basic
 namespace Gts
 namespace Loc
 
@@ -443,4 +444,227 @@ theorem insertAll_perm (fs : List Feature) : ∀ (t : Table), (insertAll t fs).P
     simpa [insertAll] using h1.trans h2
 
 end Table
+
+/-! ### `Within` / `Overlap` / strand over the leaves and over the denoted residues -/
+
+namespace Loc
+
+/-- the `[start, end)` span of a contiguous leaf -/
+def leafSpan (l : Loc) : Int × Int := (span? l).getD (0, 0)
+
+mutual
+/-- `LocationWithin`: **every** leaf lies within the bounds -/
+theorem within_iff_leaves : ∀ (l : Loc) (lo hi : Int),
+    within l lo hi = true ↔ ∀ x ∈ leaves l, rangeWithin (leafSpan x).1 (leafSpan x).2 lo hi = true
+  | between p, lo, hi => by simp [within, leaves, leafSpan, span?]
+  | point p, lo, hi => by simp [within, leaves, leafSpan, span?]
+  | ranged s e a b, lo, hi => by simp [within, leaves, leafSpan, span?]
+  | ambiguous s e, lo, hi => by simp [within, leaves, leafSpan, span?]
+  | joined ls, lo, hi => by simp only [within, leaves]; exact withinAll_iff_leaves ls lo hi
+  | ordered ls, lo, hi => by simp only [within, leaves]; exact withinAll_iff_leaves ls lo hi
+  | compl l, lo, hi => by simp only [within, leaves]; exact within_iff_leaves l lo hi
+theorem withinAll_iff_leaves : ∀ (ls : List Loc) (lo hi : Int),
+    withinAll ls lo hi = true ↔
+      ∀ x ∈ leavesList ls, rangeWithin (leafSpan x).1 (leafSpan x).2 lo hi = true
+  | [], lo, hi => by simp [withinAll, leavesList]
+  | l :: ls, lo, hi => by
+      simp only [withinAll, leavesList, Bool.and_eq_true, List.mem_append,
+        within_iff_leaves l lo hi, withinAll_iff_leaves ls lo hi]
+      constructor
+      · rintro ⟨h1, h2⟩ x (h | h)
+        · exact h1 x h
+        · exact h2 x h
+      · intro h
+        exact ⟨fun x hx => h x (Or.inl hx), fun x hx => h x (Or.inr hx)⟩
+end
+
+mutual
+/-- `LocationOverlap`: **some** leaf overlaps the bounds -/
+theorem overlap_iff_leaves : ∀ (l : Loc) (lo hi : Int),
+    overlap l lo hi = true ↔ ∃ x ∈ leaves l, rangeOverlap (leafSpan x).1 (leafSpan x).2 lo hi = true
+  | between p, lo, hi => by simp [overlap, leaves, leafSpan, span?]
+  | point p, lo, hi => by simp [overlap, leaves, leafSpan, span?]
+  | ranged s e a b, lo, hi => by simp [overlap, leaves, leafSpan, span?]
+  | ambiguous s e, lo, hi => by simp [overlap, leaves, leafSpan, span?]
+  | joined ls, lo, hi => by simp only [overlap, leaves]; exact overlapAny_iff_leaves ls lo hi
+  | ordered ls, lo, hi => by simp only [overlap, leaves]; exact overlapAny_iff_leaves ls lo hi
+  | compl l, lo, hi => by simp only [overlap, leaves]; exact overlap_iff_leaves l lo hi
+theorem overlapAny_iff_leaves : ∀ (ls : List Loc) (lo hi : Int),
+    overlapAny ls lo hi = true ↔
+      ∃ x ∈ leavesList ls, rangeOverlap (leafSpan x).1 (leafSpan x).2 lo hi = true
+  | [], lo, hi => by simp [overlapAny, leavesList]
+  | l :: ls, lo, hi => by
+      simp only [overlapAny, leavesList, Bool.or_eq_true, List.mem_append,
+        overlap_iff_leaves l lo hi, overlapAny_iff_leaves ls lo hi]
+      constructor
+      · rintro (⟨x, h1, h2⟩ | ⟨x, h1, h2⟩)
+        · exact ⟨x, Or.inl h1, h2⟩
+        · exact ⟨x, Or.inr h1, h2⟩
+      · rintro ⟨x, h1 | h1, h2⟩
+        · exact Or.inl ⟨x, h1, h2⟩
+        · exact Or.inr ⟨x, h1, h2⟩
+end
+
+/-- residue `q` lies in the span of leaf `x` -/
+def covers (x : Loc) (q : Int) : Prop := (leafSpan x).1 ≤ q ∧ q < (leafSpan x).2
+
+theorem mem_fwd {q : Int} {b : Bool} {xs : List Int} : (q, b) ∈ fwd xs ↔ b = false ∧ q ∈ xs := by
+  simp only [fwd, List.mem_map, Prod.mk.injEq]
+  constructor
+  · rintro ⟨x, hx, rfl, rfl⟩; exact ⟨rfl, hx⟩
+  · rintro ⟨rfl, hx⟩; exact ⟨q, hx, rfl, rfl⟩
+
+theorem mem_flipDen {q : Int} {b : Bool} {d : List Pos} : (q, b) ∈ flipDen d ↔ (q, !b) ∈ d := by
+  simp only [flipDen, List.mem_map, List.mem_reverse, Prod.mk.injEq]
+  constructor
+  · rintro ⟨p, hp, rfl, rfl⟩; simpa using hp
+  · intro h; exact ⟨(q, !b), h, rfl, by simp⟩
+
+theorem mem_den_range {s e q : Int} :
+    (∃ b, (q, b) ∈ fwd (irange s (e - s).toNat)) ↔ s ≤ q ∧ q < e := by
+  constructor
+  · rintro ⟨b, h⟩
+    have := (mem_irange.mp (mem_fwd.mp h).2)
+    omega
+  · intro h
+    exact ⟨false, mem_fwd.mpr ⟨rfl, mem_irange.mpr (by omega)⟩⟩
+
+mutual
+/-- the residues a location denotes are exactly the positions its leaves span -/
+theorem den_cover : ∀ (l : Loc) (q : Int), (∃ b, (q, b) ∈ den l) ↔ ∃ x ∈ leaves l, covers x q
+  | between p, q => by
+      simp only [den, leaves, covers, leafSpan, span?, List.not_mem_nil, exists_false,
+        List.mem_singleton, exists_eq_left, Option.getD_some, false_iff]
+      omega
+  | point p, q => by simp [den, leaves, covers, leafSpan, span?]; omega
+  | ranged s e a b, q => by
+      simp only [den, leaves, covers, leafSpan, span?, List.mem_singleton, exists_eq_left,
+        Option.getD_some]
+      exact mem_den_range
+  | ambiguous s e, q => by
+      simp only [den, leaves, covers, leafSpan, span?, List.mem_singleton, exists_eq_left,
+        Option.getD_some]
+      exact mem_den_range
+  | joined ls, q => by simp only [den, leaves]; exact denList_cover ls q
+  | ordered ls, q => by simp only [den, leaves]; exact denList_cover ls q
+  | compl l, q => by
+      simp only [den, leaves, mem_flipDen]
+      rw [← den_cover l q]
+      constructor
+      · rintro ⟨b, h⟩; exact ⟨!b, h⟩
+      · rintro ⟨b, h⟩; exact ⟨!b, by simpa using h⟩
+theorem denList_cover : ∀ (ls : List Loc) (q : Int),
+    (∃ b, (q, b) ∈ denList ls) ↔ ∃ x ∈ leavesList ls, covers x q
+  | [], q => by simp [denList, leavesList]
+  | l :: ls, q => by
+      simp only [denList, leavesList, List.mem_append]
+      rw [exists_or, den_cover l q, denList_cover ls q]
+      constructor
+      · rintro (⟨x, h1, h2⟩ | ⟨x, h1, h2⟩)
+        · exact ⟨x, Or.inl h1, h2⟩
+        · exact ⟨x, Or.inr h1, h2⟩
+      · rintro ⟨x, h1 | h1, h2⟩
+        · exact Or.inl ⟨x, h1, h2⟩
+        · exact Or.inr ⟨x, h1, h2⟩
+end
+
+/-- every leaf denotes at least one residue (no `Between` site, no empty range) -/
+def ProperLeaves (l : Loc) : Prop := ∀ x ∈ leaves l, (leafSpan x).1 < (leafSpan x).2
+
+theorem rangeWithin_iff {s e lo hi : Int} (hse : s < e) (hb : lo ≤ hi) :
+    rangeWithin s e lo hi = true ↔ ∀ q, s ≤ q → q < e → lo ≤ q ∧ q < hi := by
+  have h1 : ¬ e < s := by omega
+  have h2 : ¬ hi < lo := by omega
+  simp only [rangeWithin, h1, h2, if_false, Bool.and_eq_true, decide_eq_true_eq]
+  constructor
+  · rintro ⟨_, _⟩ q _ _; omega
+  · intro h
+    have := h s (Int.le_refl _) hse
+    have := h (e - 1) (by omega) (by omega)
+    omega
+
+theorem rangeOverlap_iff {s e lo hi : Int} (hse : s < e) (hb : lo < hi) :
+    rangeOverlap s e lo hi = true ↔ ∃ q, s ≤ q ∧ q < e ∧ lo ≤ q ∧ q < hi := by
+  have h1 : ¬ e < s := by omega
+  have h2 : ¬ hi < lo := by omega
+  simp only [rangeOverlap, h1, h2, if_false, Bool.and_eq_true, decide_eq_true_eq]
+  constructor
+  · rintro ⟨_, _⟩
+    by_cases h : s ≤ lo
+    · exact ⟨lo, by omega, by omega, by omega, by omega⟩
+    · exact ⟨s, by omega, by omega, by omega, by omega⟩
+  · rintro ⟨q, _, _, _, _⟩; omega
+
+/-- `Within(lo, hi)` over the denoted residues: all of them lie in `[lo, hi)` -/
+theorem within_iff_den (l : Loc) (lo hi : Int) (hp : ProperLeaves l) (hb : lo ≤ hi) :
+    within l lo hi = true ↔ ∀ q b, (q, b) ∈ den l → lo ≤ q ∧ q < hi := by
+  rw [within_iff_leaves]
+  constructor
+  · intro h q b hq
+    obtain ⟨x, hx, hc⟩ := (den_cover l q).mp ⟨b, hq⟩
+    exact (rangeWithin_iff (hp x hx) hb).mp (h x hx) q hc.1 hc.2
+  · intro h x hx
+    refine (rangeWithin_iff (hp x hx) hb).mpr fun q h1 h2 => ?_
+    obtain ⟨b, hq⟩ := (den_cover l q).mpr ⟨x, hx, h1, h2⟩
+    exact h q b hq
+
+/-- `Overlap(lo, hi)` over the denoted residues: some of them lies in `[lo, hi)` (for a
+non-empty window; with `lo = hi` the code asks for a leaf that strictly contains the site) -/
+theorem overlap_iff_den (l : Loc) (lo hi : Int) (hp : ProperLeaves l) (hb : lo < hi) :
+    overlap l lo hi = true ↔ ∃ q b, (q, b) ∈ den l ∧ lo ≤ q ∧ q < hi := by
+  rw [overlap_iff_leaves]
+  constructor
+  · rintro ⟨x, hx, h⟩
+    obtain ⟨q, h1, h2, h3, h4⟩ := (rangeOverlap_iff (hp x hx) hb).mp h
+    obtain ⟨b, hq⟩ := (den_cover l q).mpr ⟨x, hx, h1, h2⟩
+    exact ⟨q, b, hq, h3, h4⟩
+  · rintro ⟨q, b, hq, h3, h4⟩
+    obtain ⟨x, hx, hc⟩ := (den_cover l q).mp ⟨b, hq⟩
+    exact ⟨x, hx, (rangeOverlap_iff (hp x hx) hb).mpr ⟨q, hc.1, hc.2, h3, h4⟩⟩
+
+/-! strand -/
+
+theorem strandList_forward (ss : List Nat) : strandList ss = 1 ↔ ∀ s ∈ ss, s = 1 := by
+  unfold strandList
+  constructor
+  · intro h
+    by_cases hr : (ss.filter (· != 1)).length = 0
+    · intro s hs
+      have : ss.filter (· != 1) = [] := List.eq_nil_of_length_eq_zero hr
+      rw [List.filter_eq_nil_iff] at this
+      simpa using this s hs
+    · simp only [hr, if_false] at h
+      split at h <;> simp at h
+  · intro h
+    have : ss.filter (· != 1) = [] := by
+      rw [List.filter_eq_nil_iff]; intro s hs; simp [h s hs]
+    simp [this]
+
+theorem strandList_reverse (ss : List Nat) : strandList ss = 2 ↔ ss ≠ [] ∧ ∀ s ∈ ss, s = 2 := by
+  unfold strandList
+  constructor
+  · intro h
+    by_cases hr : (ss.filter (· != 1)).length = 0
+    · simp [hr] at h
+    · simp only [hr, if_false] at h
+      by_cases hf : (ss.filter (· != 2)).length = 0
+      · have h2 : ss.filter (· != 2) = [] := List.eq_nil_of_length_eq_zero hf
+        rw [List.filter_eq_nil_iff] at h2
+        refine ⟨?_, fun s hs => by simpa using h2 s hs⟩
+        rintro rfl; simp at hr
+      · simp [hf] at h
+  · rintro ⟨hne, h⟩
+    have h2 : ss.filter (· != 2) = [] := by
+      rw [List.filter_eq_nil_iff]; intro s hs; simp [h s hs]
+    have h1 : ss.filter (· != 1) = ss := by
+      rw [List.filter_eq_self]; intro s hs; simp [h s hs]
+    have : ss.length ≠ 0 := fun e => hne (List.eq_nil_of_length_eq_zero e)
+    simp [h1, h2, this]
+
+theorem mem_strands {ls : List Loc} {s : Nat} : s ∈ strands ls ↔ ∃ l ∈ ls, strand l = s := by
+  induction ls with
+  | nil => simp [strands]
+  | cons l ls ih => simp [strands, ih, eq_comm]
+
+end Loc
 end Gts
